@@ -52,6 +52,21 @@ PctDecode(raw, form) ==
     IN  IF s.st = 0 THEN [out |-> s.out, bad |-> s.bad]
         ELSE [out |-> s.out \o (IF s.st = 1 THEN <<cPCT>> ELSE <<cPCT, s.h>>), bad |-> TRUE]
 
+(* RFC 3986 6.2.2.2: a percent-encoded unreserved character is equivalent to the character itself ("%2E" is "."), so   *)
+(* structural parsing of a path segment happens after this normalisation; other triplets are kept as they are.          *)
+NUFlush(s) == IF s.st = 0 THEN s.out ELSE IF s.st = 1 THEN Append(s.out, cPCT) ELSE s.out \o <<cPCT, s.h>>
+NUStep(s, c) ==
+    CASE s.st = 0 -> IF c = cPCT THEN [s EXCEPT !.st = 1] ELSE [s EXCEPT !.out = Append(@, c)]
+      [] s.st = 1 -> IF IsHex(c) THEN [s EXCEPT !.st = 2, !.h = c]
+                     ELSE IF c = cPCT THEN [s EXCEPT !.out = Append(@, cPCT)]
+                     ELSE [s EXCEPT !.out = @ \o <<cPCT, c>>, !.st = 0]
+      [] OTHER    -> IF IsHex(c)
+                     THEN LET b == 16 * HexVal(s.h) + HexVal(c)
+                          IN  [s EXCEPT !.out = IF Unreserved(b) THEN Append(@, b) ELSE @ \o <<cPCT, s.h, c>>, !.st = 0]
+                     ELSE IF c = cPCT THEN [s EXCEPT !.out = @ \o <<cPCT, s.h>>, !.st = 1]
+                     ELSE [s EXCEPT !.out = @ \o <<cPCT, s.h, c>>, !.st = 0]
+NormUnreserved(raw) == NUFlush(FoldLeft(NUStep, [out |-> <<>>, st |-> 0, h |-> 0], raw))
+
 (* RFC 3629 UTF-8 decoding: automaton over bytes.  need = continuation bytes still expected. *)
 UD0 == [out |-> <<>>, need |-> 0, cp |-> 0, bad |-> FALSE]
 UDStart(s, b) == IF b < 128 THEN [s EXCEPT !.out = Append(@, b)]
@@ -281,7 +296,8 @@ PathSwagger(d, seg, mode) ==
     ELSE LET dl == Delim(d.style)
          IN  IF dl = cCOMMA THEN SL(AsArr(RawSplit(seg, dl, mode)), AsArr(DecSplit(seg, dl, mode)))
              ELSE SL(AsArr(RawSplit(seg, dl, mode) \cup DecSplit(seg, dl, mode)), {})
-PathDecode(d, seg, mode) ==
+PathDecode(d, seg0, mode) ==
+    LET seg == IF mode = "pct" THEN NormUnreserved(seg0) ELSE seg0 IN
     CASE d.dialect = "swagger2"  -> PathSwagger(d, seg, mode)
       [] Style(d) = "simple"     -> PathSimple(d, seg, mode)
       [] Style(d) = "label"      -> PathLabel(d, seg, mode)
@@ -355,38 +371,6 @@ Decode(d, w) == CASE d.loc = "path"   -> PathDecode(d, w.seg, w.pmode)
                   [] OTHER            -> CookieDecode(d, w.cpresent, w.cookie)
 
 -----------------------------------------------------------------------------
-(* Which (definition, value) pairs have a defined, unambiguous decoding ("T"); everything else is outside the fragment. *)
-Texts(v) == {Coerce(v.items[i]) : i \in 1..Len(v.items)} \cup {v.keys[i] : i \in 1..Len(v.keys)}
-DelimsOf(d) ==
-    IF d.dialect = "swagger2" THEN (IF d.type = "array" /\ d.style # "multi" THEN {Delim(d.style)} ELSE {})
-    ELSE IF d.type = "prim" THEN {}
-    ELSE CASE d.loc = "path" /\ Style(d) = "simple" -> {cCOMMA, cEQ}
-           [] d.loc = "path" /\ Style(d) = "label"  -> {cDOT, cCOMMA, cEQ}
-           [] d.loc = "path"                        -> {cSEMI, cCOMMA, cEQ}
-           [] d.loc = "query" /\ Style(d) = "spaceDelimited" -> {cSP}
-           [] d.loc = "query" /\ Style(d) = "pipeDelimited"  -> {cPIPE}
-           [] d.loc = "query" /\ Style(d) = "deepObject"     -> {cLBR, cRBR}
-           [] d.loc = "query" -> IF Explode(d) THEN {} ELSE {cCOMMA}
-           [] OTHER -> {cCOMMA, cEQ}
-CookieOctet(c) == c = 33 \/ c \in 35..43 \/ c \in 45..58 \/ c \in 60..91 \/ c \in 93..126
-Fragment(d, v) ==
-    LET ts == Texts(v) IN
-    CASE d.style = "json" -> IF d.loc \in {"header", "cookie"} /\ \E t \in Texts(v) : \E i \in 1..Len(t) : t[i] > 126 \/ t[i] < 32
-                             THEN "non-ascii-field" ELSE IF d.loc = "cookie" THEN "cookie-octet" ELSE "T"
-      [] v.k # "prim" /\ Len(v.items) = 0 -> "empty-composite"
-      [] d.dialect = "oas3" /\ d.loc = "cookie" /\ d.type # "prim" /\ Explode(d) -> "style-without-decoding"
-      [] d.dialect = "oas3" /\ d.loc = "query" /\ Style(d) = "deepObject" /\ d.type # "object" -> "style-without-decoding"
-      [] d.dialect = "oas3" /\ d.loc = "query" /\ Style(d) \in {"spaceDelimited", "pipeDelimited"} /\ (d.type # "array" \/ Explode(d)) -> "style-without-decoding"
-      [] \E t \in ts : Has(t, DelimsOf(d)) -> "item-contains-delimiter"
-      [] d.loc = "path" /\ \E t \in ts : Has(t, {cSLASH, cLCB, cRCB}) -> "unsendable-path-value"
-      [] d.loc = "path" /\ v.k = "prim" /\ Coerce(v.items[1]) = <<>> /\ (d.dialect = "swagger2" \/ Style(d) = "simple") -> "unsendable-path-value"
-      [] d.loc \in {"header", "cookie"} /\ \E t \in ts : \E i \in 1..Len(t) : t[i] > 126 \/ (t[i] < 32 /\ t[i] # cTAB) -> "non-ascii-field"
-      [] d.loc = "header" /\ \E t \in ts : t # <<>> /\ (t[1] \in {cSP, cTAB} \/ t[Len(t)] \in {cSP, cTAB}) -> "field-whitespace"
-      [] d.loc = "header" /\ d.dialect = "swagger2" /\ d.type = "array" /\ d.style \in {"ssv", "tsv"} /\ \E t \in ts : t = <<>> -> "field-whitespace"
-      [] d.loc = "cookie" /\ \E t \in ts : \E i \in 1..Len(t) : ~CookieOctet(t[i]) /\ t[i] # cPCT -> "cookie-octet"
-      [] OTHER -> "T"
-
------------------------------------------------------------------------------
 (* Reference encoder, read off the same table (RFC 6570 flavour: data percent-encoded, delimiters literal). Used only  *)
 (* for the design invariant RoundTrip and exported for information; recorded requests are judged by Decode alone.      *)
 EncItems(v, raw) == [i \in 1..Len(v.items) |-> IF raw THEN Coerce(v.items[i]) ELSE PctEncode(Coerce(v.items[i]))]
@@ -437,6 +421,40 @@ RefWire(d, v) == LET e == RefEncode(d, v)
                       hpresent |-> d.loc = "header", hval |-> IF d.loc = "header" THEN e ELSE <<>>,
                       cpresent |-> d.loc = "cookie", cookie |-> IF d.loc = "cookie" THEN e ELSE <<>>]
 
+(* Which (definition, value) pairs have a defined, unambiguous decoding ("T"); everything else is outside the fragment. *)
+Texts(v) == {Coerce(v.items[i]) : i \in 1..Len(v.items)} \cup {v.keys[i] : i \in 1..Len(v.keys)}
+DelimsOf(d) ==
+    IF d.dialect = "swagger2" THEN (IF d.type = "array" /\ d.style # "multi" THEN {Delim(d.style)} ELSE {})
+    ELSE IF d.type = "prim" THEN {}
+    ELSE CASE d.loc = "path" /\ Style(d) = "simple" -> {cCOMMA, cEQ}
+           [] d.loc = "path" /\ Style(d) = "label"  -> {cDOT, cCOMMA, cEQ}
+           [] d.loc = "path"                        -> {cSEMI, cCOMMA, cEQ}
+           [] d.loc = "query" /\ Style(d) = "spaceDelimited" -> {cSP}
+           [] d.loc = "query" /\ Style(d) = "pipeDelimited"  -> {cPIPE}
+           [] d.loc = "query" /\ Style(d) = "deepObject"     -> {cLBR, cRBR}
+           [] d.loc = "query" -> IF Explode(d) THEN {} ELSE {cCOMMA}
+           [] OTHER -> {cCOMMA, cEQ}
+DotSegs == {<<cDOT>>, <<cDOT, cDOT>>}
+CookieOctet(c) == c = 33 \/ c \in 35..43 \/ c \in 45..58 \/ c \in 60..91 \/ c \in 93..126
+Fragment(d, v) ==
+    LET ts == Texts(v) IN
+    CASE d.loc = "path" /\ \E t \in ts : Has(t, {cSLASH, cLCB, cRCB}) -> "unsendable-path-value"
+      [] d.style = "json" -> IF d.loc \in {"header", "cookie"} /\ \E t \in Texts(v) : \E i \in 1..Len(t) : t[i] > 126 \/ t[i] < 32
+                             THEN "non-ascii-field" ELSE IF d.loc = "cookie" THEN "cookie-octet" ELSE "T"
+      [] v.k # "prim" /\ Len(v.items) = 0 -> "empty-composite"
+      [] d.dialect = "oas3" /\ d.loc = "cookie" /\ d.type # "prim" /\ Explode(d) -> "style-without-decoding"
+      [] d.dialect = "oas3" /\ d.loc = "query" /\ Style(d) = "deepObject" /\ d.type # "object" -> "style-without-decoding"
+      [] d.dialect = "oas3" /\ d.loc = "query" /\ Style(d) \in {"spaceDelimited", "pipeDelimited"} /\ (d.type # "array" \/ Explode(d)) -> "style-without-decoding"
+      [] \E t \in ts : Has(t, DelimsOf(d)) -> "item-contains-delimiter"
+      \* the segment would be empty, or the style's own syntax (not the value) would make it a dot segment that RFC 3986 5.2.4 removes
+      [] d.loc = "path" /\ (RefEncode(d, v) = <<>> \/ (RefEncode(d, v) \in DotSegs /\ ts \cap DotSegs = {})) -> "unsendable-path-value"
+      [] d.loc \in {"header", "cookie"} /\ \E t \in ts : \E i \in 1..Len(t) : t[i] > 126 \/ (t[i] < 32 /\ t[i] # cTAB) -> "non-ascii-field"
+      [] d.loc = "header" /\ \E t \in ts : t # <<>> /\ (t[1] \in {cSP, cTAB} \/ t[Len(t)] \in {cSP, cTAB}) -> "field-whitespace"
+      [] d.loc = "header" /\ d.dialect = "swagger2" /\ d.type = "array" /\ d.style \in {"ssv", "tsv"} /\ \E t \in ts : t = <<>> -> "field-whitespace"
+      [] d.loc = "cookie" /\ \E t \in ts : \E i \in 1..Len(t) : ~CookieOctet(t[i]) /\ t[i] # cPCT -> "cookie-octet"
+      [] OTHER -> "T"
+
+-----------------------------------------------------------------------------
 (* verdict of the parameter part of a request: "T" recovered, "F" not recovered, "U" outside the fragment / ambiguous *)
 ParamVerdict(d, v, w, alsoDecoded) ==
     LET fr == Fragment(d, v)
